@@ -48,10 +48,10 @@ Fixpoint rlookup (k : kind) (r : Z) (l : list (kind * Z * life)) : option life :
 Definition rset (k : kind) (r : Z) (x : life) (l : list (kind * Z * life)) : list (kind * Z * life) :=
   map (fun p => if kind_eqb (fst (fst p)) k && (snd (fst p) =? r) then (fst p, x) else p) l.
 (* an error answer concerns the registration with that id whatever its kind *)
+Definition err_tr (code : Z) (x : life) : life :=
+  match x with LAwait _ _ _ => LErr code | LReady _ _ _ _ => LAny | LErr _ => LAny | y => y end.
 Definition rerror (r code : Z) (l : list (kind * Z * life)) : list (kind * Z * life) :=
-  map (fun p => if snd (fst p) =? r
-                then (fst p, match snd p with LAwait _ _ _ => LErr code | LReady _ _ _ _ => LAny | LErr _ => LAny | x => x end)
-                else p) l.
+  map (fun p => if snd (fst p) =? r then (fst p, err_tr code (snd p)) else p) l.
 
 Definition list_eqb (a b : list Z) : bool :=
   (Z.of_nat (length a) =? Z.of_nat (length b)) && forallb (fun p => fst p =? snd p) (combine a b).
@@ -172,6 +172,7 @@ Definition c09_step (c0 tdrv : Z) (q : ost) (o : op) (x : out) : verdict :=
       end end
   | Peek k r' =>
       match r with Panic | Hang | Crash => Bad | _ =>
+      if q_closed q then Next q else       (* what a handle looks like after the close is C10's business *)
       match rlookup k r' (q_regs q), r with
       | Some (LReady (Some h) d1 d2 d3), Ok [h'; _; _; e1; e2; e3] =>
           if (h' =? h) && (e1 =? d1) && (e2 =? d2) && (e3 =? d3) then Next q else Bad
